@@ -53,7 +53,10 @@ def nid(node) -> int:
 
 def coq_rt(node, U) -> str:
     # compact node term: the filter model reads only the data object's identity and the data_id
-    return (f"(Nd {nid(node)} {H.z(U.info(node._data)['obj'])} {H.coq_did(node._data_id)} "
+    kind = getattr(node, "kind", None)
+    head = "Nd" if kind is None else "Ndk"
+    ktxt = "" if kind is None else f" {H.coq_text(kind)}"
+    return (f"({head} {nid(node)} {H.z(U.info(node._data)['obj'])} {H.coq_did(node._data_id)}{ktxt} "
             f"{H.coq_list(coq_rt(c, U) for c in (node._children or []))})")
 
 
@@ -114,7 +117,8 @@ class Prop:
             "str), so that node identity, data identity and data equality come apart and the twins get every pair of different answers; "
             "(d) TYPED: TypedTrees with kinds mixed among siblings (two patterns per shape; random kinds in the random tier), all "
             "verdict assignments on small shapes plus a stop answer at every position of every shape of 3-4 (quick) / 4-5 (thorough) nodes; "
-            "the kinds of copied nodes are not compared (C08 says nothing about them); (c) CLONES: every pair of non-sibling nodes carrying one data object (parent/child included = the region where D24 makes the "
+            "the kinds of the copied nodes are observed and compared with the model (the scan re-creates nodes with the default kind "
+            "because add_child(n) is called without a kind, _add_from keeps kinds: a C07-family behaviour) but not judged by the C08 oracle; (c) CLONES: every pair of non-sibling nodes carrying one data object (parent/child included = the region where D24 makes the "
             "copying form raise).  quick: (a) every ordered forest <= 3 nodes x all 6^n verdict assignments x all starts, 4-5 nodes "
             "sampled per (shape, start); (b) 2 nodes exhaustive, 3-4 nodes sampled; (c) 2 nodes exhaustive, 3 sampled; 300 random trees "
             "of 6-14 nodes with clones.  thorough: (a) <= 4 nodes exhaustive, 5 sampled; (b) <= 3 exhaustive, 4 sampled; (c) <= 3 "
@@ -325,7 +329,7 @@ class Prop:
         start = None if desc["start"] is None else nodes[desc["start"]]
         coq = (f"({coq_forest(tree._root, U)}, "
                f"{H.coq_list(f'({nid(n)}, {COQ_RAW[vd[nid(n)][0]][vd[nid(n)][1]]})' for n in nodes)}, "
-               f"{'(@None Z)' if start is None else H.coq_opt(nid(start))})")
+               f"{'(@None Z)' if start is None else H.coq_opt(nid(start))}, {H.coq_bool(bool(desc.get('typed')))})")
 
         # snapshot of the source by pointers, taken before anything runs
         snap = {id(n): list(n._children or []) for n in [tree._root] + nodes}
@@ -349,7 +353,8 @@ class Prop:
                 return [-1, H.err_class(e)], None, list(log)
 
             def go(n):
-                return [H.nid(n) - base, U.index(n._data), H.sx_did(n._data_id), [go(c) for c in (n._children or [])]]
+                return [H.nid(n) - base, U.index(n._data), H.sx_did(n._data_id), H.sx_kind(getattr(n, "kind", None)),
+                        [go(c) for c in (n._children or [])]]
 
             return [go(c) for c in (t2._root._children or [])], t2, list(log)
 
@@ -491,7 +496,7 @@ class Prop:
             return out
 
         def strip(o):
-            return [[x[1], x[2], strip(x[3])] for x in o]
+            return [[x[1], x[2], strip(x[4])] for x in o]      # node identity and kind are not part of the statement
 
         def wrap(k, body):
             if start is not None and k < 2:     # add_self=True: the start node itself on top
